@@ -187,7 +187,9 @@ pub fn run_cmd(cmd: &str, seed: u64, h: &RepoHandle, scn: &Scn) -> RusticResult<
         }
         "rewrite" => {
             let r = h.open()?.to_indexed()?;
-            let snaps: Vec<SnapshotFile> = live.iter().map(|l| l.0.clone()).collect();
+            // the snapshots as the repository holds them (like the CLI: loaded, so `original` is set), in the order of `live`
+            let stored = r.get_all_snapshots()?;
+            let snaps: Vec<SnapshotFile> = live.iter().filter_map(|l| stored.iter().find(|s| s.id == l.0.id).cloned()).collect();
             let glob = *Rng::new(seed ^ 0x7e).pick(&["!**/f1*", "!**/d1", "!**/sub", "!**/f2", "**/d0"]);
             let topts = RewriteTreesOptions::default().excludes(Excludes::default().globs(vec![glob.to_string()]));
             // with `forget` the rewritten snapshots replace the old ones (removals at the end), without they are added
